@@ -464,8 +464,95 @@ fn check_timeslice(ctx: &mut Ctx) {
     }
 }
 
+/// integer arithmetic at the edges of the i64 range: the result is the exact integer when it fits,
+/// otherwise a double close to the exact value (or an error) — never a different integer; and the
+/// comparison operators stay mutually consistent on such results
+fn check_int_boundaries(ctx: &mut Ctx) {
+    let n = ctx.budget(300, 20000);
+    let edge: [i64; 12] = [i64::MAX, i64::MAX - 1, i64::MIN, i64::MIN + 1, 4611686018427387904, -4611686018427387904, 4611686018427387903, 9007199254740992, 9007199254740993, 3037000500, 1, -1];
+    for _ in 0..n {
+        let mut r = ctx.rng.fork();
+        let (a, b) = (*r.pick(&edge), *r.pick(&[1i64, -1, 2, -2, 0, 3037000500, i64::MAX, i64::MIN, 4611686018427387904]));
+        let (op, exact): (&str, Option<i128>) = match r.below(3) {
+            0 => ("+", Some(a as i128 + b as i128)),
+            1 => ("-", Some(a as i128 - b as i128)),
+            _ => ("*", Some(a as i128 * b as i128)),
+        };
+        let exact = exact.unwrap();
+        let input = format!("{{\"a\":{},\"b\":{}}}\n", a, b);
+        let q = format!("* | json | a {} b as r | r == a as same | r > a as gt | r < a as lt | fields r, same, gt, lt", op);
+        let key = format!("int-boundaries:{} {} {}", a, op, b);
+        let c = run_both(ctx, &q, input.as_bytes());
+        let info = serde_json::json!({"query": q, "input": input, "exact_result": exact.to_string()});
+        if !c.imp.compiled || c.imp.panicked.is_some() || c.imp.hung {
+            ctx.case("int-boundaries", &key, "viol", serde_json::json!({"class": "", "what": "did not run", "panic": c.imp.panicked, "case": info}));
+            continue;
+        }
+        let rows = canon::normalized_lines(&c.imp.stdout).unwrap_or_default();
+        let mut problem: Option<String> = None;
+        let mut known: Option<String> = None;
+        if let Some(J::Obj(kvs)) = rows.first() {
+            let get = |k: &str| kvs.iter().find(|kv| kv.0 == k).map(|kv| kv.1.clone());
+            match get("r") {
+                Some(J::Int(g)) => {
+                    // the exact integer — or, when that does not fit, the double nearest to it, which is
+                    // shown as an integer when it is one inside the range (−2^63 is)
+                    let fits = exact >= i64::MIN as i128 && exact <= i64::MAX as i128;
+                    if g as i128 != exact && (fits || (g as f64) != (exact as f64) || g != i64::MIN) {
+                        problem = Some(format!("{} {} {} = {} but the result is the integer {}", a, op, b, exact, g));
+                    }
+                }
+                Some(J::Float(g)) => {
+                    if exact >= i64::MIN as i128 && exact <= i64::MAX as i128 {
+                        problem = Some(format!("{} {} {} = {} fits an integer but the result is the double {}", a, op, b, exact, g));
+                    } else if (g - exact as f64).abs() > 1e-12 * (exact as f64).abs() {
+                        problem = Some(format!("{} {} {} = {} but the result is {}", a, op, b, exact, g));
+                    }
+                }
+                other => problem = Some(format!("result {:?}", other)),
+            }
+            // the comparisons of the result with `a` must not contradict the true order of a op b and a,
+            // and exactly one of <, ==, > must hold
+            let flags: Vec<bool> = ["lt", "same", "gt"].iter().map(|k| get(k) == Some(J::Bool(true))).collect();
+            // (a result outside the i64 range is a double: it is compared as the double it is)
+            let fits = exact >= i64::MIN as i128 && exact <= i64::MAX as i128;
+            let truth = if fits { exact.cmp(&(a as i128)) } else { (exact as f64).partial_cmp(&(a as f64)).unwrap_or(Ordering::Equal) };
+            if problem.is_none() && ((flags[1] && truth != Ordering::Equal) || (flags[0] && truth == Ordering::Greater) || (flags[2] && truth == Ordering::Less)) {
+                problem = Some(format!("r = {:?}: r < a, r == a, r > a are {:?}, but {} {} {} = {} is {:?} than/to a", get("r"), flags, a, op, b, exact, truth));
+            }
+            if problem.is_none() && flags.iter().filter(|x| **x).count() != 1 {
+                known = Some(format!("r = {:?} against a = {}: r < a, r == a, r > a are {:?} (exactly one must hold)", get("r"), a, flags));
+            }
+        } // no row: the operation was reported as an error — allowed for unrepresentable results
+        else if exact >= i64::MIN as i128 && exact <= i64::MAX as i128 {
+            problem = Some(format!("{} {} {} = {} is representable but the row was dropped", a, op, b, exact));
+        }
+        match problem {
+            Some(w) => {
+                ctx.case("int-boundaries", &key, "viol", serde_json::json!({"class": "", "what": w, "got": String::from_utf8_lossy(&c.imp.stdout), "case": info}));
+                continue;
+            }
+            None => {
+                if let Some(w) = known {
+                    // listed in /verif/known_findings.json (open): an integer beyond 2^53 and a double are
+                    // compared through the integer's nearest double, `==` by variant
+                    ctx.case("int-boundaries", &key, "known", serde_json::json!({"class": "C05/int-vs-float-comparison-beyond-2^53", "what": w, "got": String::from_utf8_lossy(&c.imp.stdout), "case": info}));
+                } else {
+                    ctx.case("int-boundaries", &key, "pass", info.clone());
+                }
+            }
+        }
+        match compare(&c, true) {
+            F::Agree => ctx.case("model", &key, "pass", info),
+            F::Skip(w) => ctx.case("model", "", "skip", serde_json::json!({"why": w.split(':').next().unwrap_or("").to_string()})),
+            F::Disagree(d) => ctx.case("model", &key, "fdis", serde_json::json!({"what": d, "case": info})),
+        }
+    }
+}
+
 pub fn check(ctx: &mut Ctx) {
     check_timeslice(ctx);
+    check_int_boundaries(ctx);
     let n = ctx.budget(4000, 200000);
     for _ in 0..n {
         let mut r = ctx.rng.fork();
